@@ -3,15 +3,22 @@ import random
 
 from ..monitors import ZeroLikeMon
 from ..sched import Sched
+from . import _ensemble as E
 from . import _worldprop as wp
 
 PROP = "C11"
 LEVEL = "exploration"
 RULE = ("seeded sampler executions on targets with a zero-likelihood region of known prior mass f in {0.9,0.5,0.2,0.05} x ess_ratio in {1,2,4,8} (1..8 warm-up iterations); "
         "per beta=0 iteration the recorded logZ must lie in [log min_t f_t, log max_t f_t] of the per-batch finite fractions observed at the likelihood seam, and no -inf is "
-        "ever stored; plus a seeded ensemble whose mean final logZ is compared with the closed-form integral over the supported region; distinct = configuration class; "
+        "ever stored; plus seeded ensembles (cells f in {0.5,0.2} x kernels x {uninterrupted, crash during the prior-sampling phase and resume with another batch size} x N,4N x R runs) "
+        "whose final logZ error against the closed-form integral over the supported region is judged with the persistent-bias rule; distinct = configuration class; "
         "non-trivial = at least two warm-up batches contained -inf draws")
-ASSUMPTIONS = ["any per-batch, pooled or averaged estimator of f lies inside the band; a per-iteration compounding one does not", "ensemble decision rule: |mean error| - 0.05 > 6 standard errors at both particle counts"]
+ASSUMPTIONS = ["any per-batch, pooled or averaged estimator of f lies inside the band; a per-iteration compounding one does not", "ensemble decision rule: persistent-bias rule of the C01/C02 engine (allowance 0.03 nats, z = 6 and not shrinking with N)"]
+which = lambda name: name.startswith("logz")
+CELLS = [dict(target="hole:0.5", kernel="tpcn", resample="mult", clustering=False, ess_ratio=4.0),
+         dict(target="hole:0.2", kernel="rwm", resample="syst", clustering=False),
+         dict(target="hole:0.5", kernel="tpcn", resample="mult", clustering=False, ess_ratio=4.0, arm="warm_reconfig"),
+         dict(target="hole:0.2", kernel="rwm", resample="syst", clustering=False, ess_ratio=4.0, arm="warm_reconfig")]
 
 
 def cases(seed, tier):
@@ -35,10 +42,24 @@ def cases(seed, tier):
             for k2 in ("like_fault", "save_every", "reconfig", "resume_n_total"):
                 c.pop(k2, None)
         out.append(c)
+    sizes, R = ((32, 128), 40) if tier == "quick" else ((64, 256), 80)
+    for cell in CELLS:
+        out += E.cell_cases(cell, sizes, R, sch, "c11")
     return out
 
 
 def run_case(case):
+    if case.get("kind") == "cell":
+        import sys
+
+        return E.replay_cell(case, sys.modules[__name__], which, PROP)
+    if case.get("kind") == "run":
+        r = E.run_single(case)
+        r["sample"] = dict(cell=case["cell"], N=case["N"], logz_error=None if r["est"] is None else round(r["est"]["logz"], 4))
+        r["distinct_key"] = r["cellid"] + f"/N{case['N']}"
+        if r["stats"].get("resumed_from_checkpoint"):
+            r["probes"]["ensemble_run_resumed_in_warmup_with_other_batch_size"] = 1
+        return r
     mon = ZeroLikeMon(PROP)
     out, w, info = wp.run_with(case, [mon])
     out["stats"].update(warmup_iterations=mon.warm)
@@ -51,4 +72,10 @@ def run_case(case):
     return out
 
 
-shrink = wp.generic_shrink
+def aggregate(results, cases_):
+    v, tables = E.aggregate(results, cases_, which, PROP)
+    return v, dict(logz_bias_tables=tables)
+
+
+def shrink(case):
+    return iter(()) if case.get("kind") in ("run", "cell") else wp.generic_shrink(case)
